@@ -337,3 +337,89 @@ func thoroughWindows(c *Ctx, pc *propCheck) {
 			"the machine lookup is defined in a GOOS-independent file (%v); functions defined only for windows: %v (none expected: the windows file holds the file name constant)", portable, extra)
 	}
 }
+
+// cmdOverlay: `bufsa overlay -patch f [-patch g …] [-props C01,C02|all]` applies each patch in memory to today's
+// source and reports, per property, the obligations that hold today and fail on the variant. Used to run a batch of
+// seeded changes (must fail somewhere) or behaviour-preserving refactorings (must fail nowhere) without touching
+// /repo. Exit code 0 always; the output is for triage.
+func cmdOverlay(args []string) int {
+	var patches []string
+	props := "all"
+	for i := 0; i < len(args); i++ {
+		switch args[i] {
+		case "-patch":
+			i++
+			patches = append(patches, args[i])
+		case "-props":
+			i++
+			props = args[i]
+		}
+	}
+	var ids []string
+	if props == "all" {
+		for id := range registry {
+			ids = append(ids, id)
+		}
+	} else {
+		ids = strings.Split(props, ",")
+	}
+	sort.Strings(ids)
+	base, err := LoadProg(nil, "")
+	if err != nil {
+		fmt.Printf("base load failed: %v\n", err)
+		return 2
+	}
+	baseFailed := map[string]map[string]string{}
+	for _, id := range ids {
+		c, _ := runQuiet(base, registry[id])
+		baseFailed[id] = failedKeys(c)
+	}
+	base = nil
+	runtime.GC()
+	for _, pf := range patches {
+		b, err := os.ReadFile(pf)
+		if err != nil {
+			fmt.Printf("PATCH %s: unreadable: %v\n", pf, err)
+			continue
+		}
+		ov, err := applyUnifiedDiff(string(b), func(rel string) ([]byte, error) { return os.ReadFile(filepath.Join(repoDir, rel)) })
+		if err != nil {
+			fmt.Printf("PATCH %s: does not apply: %v\n", pf, err)
+			continue
+		}
+		overlay := map[string][]byte{}
+		for rel, content := range ov {
+			overlay[filepath.Join(repoDir, rel)] = content
+		}
+		mp, err := LoadProg(overlay, "")
+		if err != nil {
+			fmt.Printf("PATCH %s: variant does not load: %v\n", pf, short(err.Error(), 300))
+			continue
+		}
+		total := 0
+		for _, id := range ids {
+			mc, panicked := runQuiet(mp, registry[id])
+			if panicked != nil {
+				fmt.Printf("PATCH %s: %s: PANIC %v\n", pf, id, panicked)
+				total++
+				continue
+			}
+			var keys []string
+			mf := failedKeys(mc)
+			for k := range mf {
+				if _, already := baseFailed[id][k]; !already {
+					keys = append(keys, k)
+				}
+			}
+			sort.Strings(keys)
+			for _, k := range keys {
+				total++
+				fmt.Printf("PATCH %s: %s: %s: %s\n", pf, id, strings.Replace(k, "|", ": ", 1), short(mf[k], 220))
+			}
+		}
+		fmt.Printf("PATCH %s: %d new failing obligation(s)\n", pf, total)
+		mp = nil
+		runtime.GC()
+	}
+	return 0
+}
